@@ -5,6 +5,8 @@ Model: `Model/Times.lean` (decoding, instants, both repair stages, their composi
 code by the correspondence check `harness/c03.py` and, for the constants, by the translator.
 -/
 import PygacModel.Lemmas.Times
+import PygacModel.Lemmas.TimesMidnight
+import Mathlib.Tactic.IntervalCases
 import PygacModel.Generated.Layouts
 import PygacModel.Generated.Misc
 namespace PygacModel.C03
@@ -86,8 +88,8 @@ fields are plausible (`Clean`), whose years are all equal and whose recorded tim
 millisecond with first-line time + (n - n0) * P, wrapped at midnight with the day of year
 (`Consistent`): `get_times` returns one instant per line, each within 1 ms of the recorded instant.
 
-Missing from the full statement (`consistent_identity` below, which is false as it stands):
-passes crossing 1 January, and passes whose first line is at exactly 00:00:00.000. -/
+Missing from the full statement (which is false as it stands, see the witness below): passes crossing
+1 January.  Passes whose first line is at exactly 00:00:00.000 are the next theorem. -/
 theorem consistent_identity_partial (P : Rat) (sg : Bool) (nowYear : Int) (hd : Option Int) (r : RawTimes)
     (h : Consistent P sg nowYear r) :
     (getTimes {} P nowYear sg hd r).length = r.nums.length ∧
@@ -102,6 +104,40 @@ theorem consistent_identity_partial (P : Rat) (sg : Bool) (nowYear : Int) (hd : 
   have h1' : i < (s1Instants (stage1 P sg nowYear r)).length := by rw [e] at h1; exact h1
   rw [List.getElem_of_eq e h1]
   exact (s1_consistent P sg nowYear r h i (by omega) h1' h2).1
+
+/-- **... and so is a consistent pass whose first line is recorded at exactly 00:00:00.000** (the one case in
+which stage 1 rebuilds the whole time-of-day series as `median(recorded - ideal) + ideal`): plausible equal years,
+one day of year, every recorded time of day the ideal `(n - n0) * P` truncated to the millisecond (`AtMidnight`);
+any line numbers, gaps, first line number, rate, family and header.  `get_times` returns one instant per line,
+each within 1 ms of the recorded one. -/
+theorem consistent_first_line_at_midnight (P : Rat) (sg : Bool) (nowYear : Int) (hd : Option Int) (r : RawTimes)
+    (h : AtMidnight P sg nowYear r) :
+    (getTimes {} P nowYear sg hd r).length = r.nums.length ∧
+    ∀ i (h1 : i < (getTimes {} P nowYear sg hd r).length) (h2 : i < (recorded r).length),
+      (recorded r)[i] - 1 ≤ (getTimes {} P nowYear sg hd r)[i] ∧
+      (getTimes {} P nowYear sg hd r)[i] ≤ (recorded r)[i] + 1 :=
+  consistent_at_midnight P sg nowYear hd r h
+
+/-- non-vacuity: a GAC pass from line 7 with a gap, first line at 00:00:00.000 -/
+def midnightPass : RawTimes :=
+  { nums := [7, 8, 9, 13], year := [2004, 2004, 2004, 2004], jday := [60, 60, 60, 60], msec := [0, 500, 1000, 3000] }
+
+example : AtMidnight 500 false 2026 midnightPass where
+  n_pos := by decide
+  len_y := rfl
+  len_j := rfl
+  len_m := rfl
+  year_ok := by decide
+  year_const := by decide
+  jday_ok := by decide
+  jday_const := by decide
+  msec_zero := rfl
+  floor_consistent := by
+    intro i h1 h2
+    have : i < 4 := h2
+    interval_cases i <;> decide +kernel +revert
+
+example : getTimes {} 500 2026 false none midnightPass = recorded midnightPass := by decide +kernel
 
 /-- a GAC pass starting at line 5, with a three-line gap, crossing UTC midnight inside the gap -/
 def examplePass : RawTimes :=
